@@ -351,6 +351,122 @@ def make_source_data(geo, gseed, conforming_names=False):
     return dat, top, bot
 
 
+ROCKS = ['rockA', 'rockB', 'rockC', 'atmos']
+
+
+def make_model(geo, gseed, conforming_names=False):
+    """a source model for t2data.transfer_from: grid from the geometry, 4 rock types assigned at random
+    (rock type 'dfalt' of fromgeo stays registered and may stay unused), parameter['print_block'],
+    generators (make_generators) and a few in-file initial conditions.  Deterministic in gseed."""
+    from t2grids import rocktype
+    dat, top, bot = make_source_data(geo, gseed, conforming_names)
+    rng = random.Random(gseed * 7919 + 13)
+    for i, n in enumerate(ROCKS):
+        dat.grid.add_rocktype(rocktype(name=n, porosity=0.05 * (i + 1), density=2000. + 100 * i))
+    natm = geo.num_atmosphere_blocks
+    for j, blk in enumerate(dat.grid.blocklist):
+        blk.rocktype = dat.grid.rocktype['atmos' if j < natm and rng.random() < 0.8 else rng.choice(ROCKS[:3] + ['dfalt'])]
+    names = [b.name for b in dat.grid.blocklist]
+    dat.parameter['print_block'] = rng.choice([None, rng.choice(names), rng.choice(names[natm:] or names)])
+    dat.incon = {}
+    for b in rng.sample(names, min(len(names), rng.randint(0, 4))):
+        dat.incon[b] = [rng.choice([None, 0.1]), [rng.uniform(1e5, 1e7), rng.uniform(10, 250)]]
+    return dat, top, bot
+
+
+def check_data_transfer(ctx, case, src, dst):
+    """t2data.transfer_from between DIFFERENT geometries, evaluated from the method's documentation and the
+    block mapping it uses: rock types (definitions once, assignments through the mapping), print block,
+    in-file initial conditions, where each generator goes, and - with preserve_generation_totals - that
+    the rates of the copies of every rate-carrying generator add up to the source's."""
+    from t2data import t2data
+    name = 'model-transfer'
+    if atm_code(src) == 2 and atm_code(dst) != 2: return       # no source block for the target's atmosphere blocks
+    rename = bool(case.get('rename')); preserve = bool(case.get('preserve'))
+    dat, top, bot = make_model(src, case['gseed'], conforming_names=rename)
+    try:
+        mapping, colmap = src.block_mapping(dst, True)
+        new = t2data()
+        new.transfer_from(dat, src, dst, top_generator=top, bottom_generator=bot,
+                          rename_generators=rename, preserve_generation_totals=preserve)
+    except IndexError as e:
+        # generator names: conventions differ and the category does not fit the target's layer-name width, or the
+        # target has convention 3 (3-item list indexed by the convention): outside the statement, counted
+        ctx.count(('tf-indexerror', repr(case)), nontrivial=False)
+        return 'IndexError'
+    except Exception as e:
+        fail(ctx, name, 'transfer_from:raises-%s' % type(e).__name__, case, 't2data.transfer_from raised %r' % (e,), 'model transferred')
+        return
+    # rock types: registered once, same definitions; every block has the rock type of its mapped source block
+    rl = [r.name for r in new.grid.rocktypelist]
+    if rl != [r.name for r in dat.grid.rocktypelist] or sorted(new.grid.rocktype) != sorted(set(rl)) or len(set(rl)) != len(rl) \
+            or any(new.grid.rocktype[r.name] is not r for r in new.grid.rocktypelist):
+        fail(ctx, name, 'transfer_from:rocktype-registration', case, 'rock types %r, dict %r' % (rl, sorted(new.grid.rocktype)),
+             'the source rock types %r, each registered once' % [r.name for r in dat.grid.rocktypelist])
+        return
+    for blk in new.grid.blocklist:
+        want = dat.grid.block[mapping[blk.name]].rocktype.name
+        if blk.rocktype.name != want or blk.rocktype is not new.grid.rocktype[want]:
+            fail(ctx, name, 'transfer_from:block-rocktype', case, 'block %r has rock type %r' % (blk.name, blk.rocktype.name),
+                 'rock type %r of its mapped source block %r' % (want, mapping[blk.name]))
+            return
+    if [b.name for b in new.grid.blocklist] != list(dst.block_name_list):
+        fail(ctx, name, 'transfer_from:grid-blocks', case, '%d blocks' % new.grid.num_blocks, 'the blocks of the target geometry')
+        return
+    # print block
+    pb = dat.parameter['print_block']
+    cands = [b.name for b in new.grid.blocklist if mapping[b.name] == pb] if pb is not None else []
+    if new.parameter['print_block'] != (cands[0] if cands else None):
+        fail(ctx, name, 'transfer_from:print-block', case, 'print_block %r' % (new.parameter['print_block'],),
+             'first target block mapped to %r: %r' % (pb, cands[:1]))
+        return
+    # in-file initial conditions
+    want = {b.name: dat.incon[mapping[b.name]] for b in new.grid.blocklist if mapping[b.name] in dat.incon}
+    if set(new.incon) != set(want) or any(new.incon[k] != want[k] for k in want):
+        fail(ctx, name, 'transfer_from:incon-dict', case, 'incon for blocks %r' % sorted(new.incon)[:6], 'for blocks %r (values of the mapped source blocks)' % sorted(want)[:6])
+        return
+    # generators: copies in source order
+    tablegens = [' AIR', 'COM1', 'COM2', 'COM3', 'COM4', 'COM5', 'HEAT', 'MASS', 'NACL', 'TRAC', ' VOL']
+    incols = [c for c in dst.columnlist if src.column_containing_point(c.centre) is not None]
+    out = list(new.generatorlist); pos = 0
+    for g in dat.generatorlist:
+        cat = src.layer_name(g.name); scol = src.column_name(g.block)
+        if cat in top + bot:
+            cols = [c for c in incols if colmap[c.name] == scol]
+            topl = lambda c: next(l for l in dst.layerlist[1:] if c.surface > l.bottom)      # first layer below ground
+            blocks = [dst.block_name(topl(c).name if cat in top else dst.layerlist[-1].name, c.name) for c in cols]
+        else:
+            blocks = [b.name for b in new.grid.blocklist if mapping[b.name] == g.block]
+        got = out[pos: pos + len(blocks)]; pos += len(blocks)
+        if [x.block for x in got] != blocks or any((x.type, x.ltab, x.itab, x.ex, x.hg, x.fg) != (g.type, g.ltab, g.itab, g.ex, g.hg, g.fg) for x in got):
+            fail(ctx, name, 'transfer_from:generator-placement', case, 'generator %r (block %r) -> %r' % (g.name, g.block, [(x.name, x.block) for x in got][:6]),
+                 'one copy in each of %r' % blocks[:6])
+            return
+        if any(b not in new.grid.block for b in blocks):
+            fail(ctx, name, 'transfer_from:generator-block-missing', case, 'generator %r placed in %r' % (g.name, blocks[:6]), 'blocks of the target grid')
+            return
+        if preserve and blocks and g.type in tablegens:
+            tot = sum(float(x.gx or 0.) for x in got); ref = float(g.gx or 0.)
+            okr = True
+            if g.ltab and abs(g.ltab) > 1:
+                for k in range(len(g.rate)):
+                    sk = sum(float(x.rate[k]) for x in got)
+                    if abs(sk - g.rate[k]) > 1e-9 * max(abs(g.rate[k]), 1e-300): okr = False
+            if abs(tot - ref) > 1e-9 * max(abs(ref), 1e-300) or not okr:
+                fail(ctx, name, 'transfer_from:generation-total-not-preserved', case,
+                     'generator %r: copies add up to %r' % (g.name, tot), 'the source rate %r (preserve_generation_totals)' % ref)
+                return
+    if pos != len(out):
+        fail(ctx, name, 'transfer_from:extra-generators', case, '%d generators' % len(out), '%d' % pos)
+        return
+    ctx.count(('tf', repr(case)))
+    return 'ok'
+
+
+def atm_code(g):
+    return G.atm_code(g)
+
+
 def check_generators_identity(ctx, case, geo, geo2):
     """t2data.transfer_from onto an identical geometry keeps every generator and the totals."""
     from t2data import t2data
